@@ -10,7 +10,7 @@ MANIFEST_ENTRY = dict(
     technique="TLC enumeration of all lock-point schedules (spec/Conc.tla) + deterministic lock-point scheduler on the real code + TLC trace validation of serializability (spec/TraceConc.tla)",
     note=WALLET_NOTE + " Granularity is the wallet-lock acquisition: node calls made between two acquisitions are not separately interleaved; the section bodies are those of Wallet.tla's RefreshFull/Scan step programs.")
 
-PARAMS = dict(quick_cfgs=["MC_C03_quick.cfg"], thorough_cfgs=["MC_C03_quick.cfg", "MC_C17_quick.cfg", "MC_C18_quick.cfg"],
+PARAMS = dict(quick_cfgs=["MC_C03_quick.cfg"], thorough_cfgs=["MC_C03_quick.cfg", "MC_C17_quick.cfg"],
               quick_scen=4, thorough_scen=60, quick_sched=16, thorough_sched=120, setup=STD_SETUP)
 OPS = {"init_send", "lock", "receive", "finalize", "cancel", "mine", "post"}
 
@@ -154,7 +154,38 @@ def run(tier, replay_path, t0):
     if tlc_consumed(r["out"]) is None:
         log(r["out"][-3000:])
         raise ToolError("TraceConc did not consume the trace")
-    viols = tlc_printed(r["out"], "VIOL")
+    tv_out = r["out"]
+    # Layer M: the section-level model (spec/ConcWallet.tla, MCConc.tla) predicts, for the
+    # modelled scenarios, exactly which schedules are not serializable
+    model_stats, mismatches, compared = {}, [], 0
+    pred = {}
+    if True:
+        r = run_tlc("MCConc.tla", "MC_Conc.cfg" if (tier == "thorough" or replay_path) else "MC_Conc_quick.cfg", "mcconc", workers=6, timeout=1200, keep_tags=("SCHEDV", "CEX"), max_keep=100000)
+        if not r["completed"]:
+            log(r["out"][-2000:])
+            raise ToolError("MCConc did not complete")
+        for x in parse_printed(r["printed"]["SCHEDV"], "SCHEDV"):
+            pred[(x["scen"], tuple(x["at"]))] = x["ser"]
+        lemma_broken = any(c.get("inv") == "Lemma_Alone" for c in parse_printed(r["printed"]["CEX"], "CEX"))
+        model_stats = {"states": r["states"], "transitions": r["transitions"], "schedules": len(pred),
+                       "non_serializable_predicted": sum(1 for v in pred.values() if not v), "lemma_alone_holds": not lemma_broken}
+        viols = tlc_printed(tv_out, "VIOL")
+        bad_lines = set(v["line"] for v in viols if v["m"] == "Serializable")
+        for li, e in enumerate(events, 1):
+            if e["ev"] != "conc":
+                continue
+            m = scen[e["b"]].get("modelled", 0)
+            if not m:
+                continue
+            k = (m, tuple(min(x, e["sections"]) if isinstance(x, int) else x for x in e["sched"]))
+            if k in pred:
+                compared += 1
+                if pred[k] != (li not in bad_lines):
+                    mismatches.append({"scen": m, "sched": e["sched"], "model_serializable": pred[k], "observed_serializable": li not in bad_lines})
+        log("  section-level model: %d states, %d schedules, %d predicted non-serializable; %d schedules compared with the real code, %d disagree" % (
+            r["states"], len(pred), model_stats["non_serializable_predicted"], compared, len(mismatches)))
+        if mismatches or lemma_broken:
+            log("NONCONFORMANCE: the section-level model and the real code disagree on %d schedules; first: %s" % (len(mismatches), mismatches[:2]))
     keys = {}
     for v in viols:
         e = events[v["line"] - 1]
@@ -172,41 +203,24 @@ def run(tier, replay_path, t0):
             cause = "operation-or-block-mid-scan"
         else:
             cause = sig
-        key = "C20/%s/%s|%s" % (v["m"], e["r"], cause if cause in (sig, "hang") else cause + "|" + sig)
+        # is this schedule one the section-level model of the pinned code covers, and does the model
+        # (= the listed design findings: sections with stale local copies) explain the outcome?
+        msc = scen[e["b"]].get("modelled", 0)
+        pk = (msc, tuple(min(x, e["sections"]) if isinstance(x, int) else x for x in e["sched"]))
+        if cause == "hang":
+            key = "C20/%s/%s|hang" % (v["m"], e["r"])
+        elif msc and pk in pred:
+            key = ("C20/%s/%s|%s" % (v["m"], e["r"], cause)) if (pred[pk] is False and cause != sig) else \
+                  ("C20/%s/%s|%s|not-predicted-by-section-model|%s" % (v["m"], e["r"], cause if cause != sig else "no-listed-cause", sig))
+        else:
+            # not a modelled scenario: the listed findings are matched by their cause alone, except that
+            # an outcome in which ONLY a log entry differs from every serial outcome (records and indices
+            # agree) is not what differing chain views produce - it is an entry overwritten with a stale copy
+            key = "C20/%s/%s|%s" % (v["m"], e["r"], cause) + ("|only-a-log-entry-differs" if sig == "R.txs" and cause != sig else "")
         if key not in keys:
-            keys[key] = {"scenario": {k: scen[e["b"]][k] for k in ("prefix", "r", "ops")}, "sched": e["sched"], "setup": setup,
+            keys[key] = {"scenario": dict({k: scen[e["b"]][k] for k in ("prefix", "r", "ops")}, modelled=scen[e["b"]].get("modelled", 0)), "sched": e["sched"], "setup": setup,
                          "opres": e["opres"], "rres": e["rres"], "count": 0, "fields": detail, "opkinds": e["opkinds"]}
         keys[key]["count"] += 1
-    # Layer M: the section-level model (spec/ConcWallet.tla, MCConc.tla) predicts, for the
-    # modelled scenarios, exactly which schedules are not serializable
-    model_stats, mismatches, compared = {}, [], 0
-    if not replay_path:
-        r = run_tlc("MCConc.tla", "MC_Conc.cfg" if tier == "thorough" else "MC_Conc_quick.cfg", "mcconc", workers=6, timeout=1200, keep_tags=("SCHEDV", "CEX"), max_keep=100000)
-        if not r["completed"]:
-            log(r["out"][-2000:])
-            raise ToolError("MCConc did not complete")
-        pred = {}
-        for x in parse_printed(r["printed"]["SCHEDV"], "SCHEDV"):
-            pred[(x["scen"], tuple(x["at"]))] = x["ser"]
-        lemma_broken = any(c.get("inv") == "Lemma_Alone" for c in parse_printed(r["printed"]["CEX"], "CEX"))
-        model_stats = {"states": r["states"], "transitions": r["transitions"], "schedules": len(pred),
-                       "non_serializable_predicted": sum(1 for v in pred.values() if not v), "lemma_alone_holds": not lemma_broken}
-        bad_lines = set(v["line"] for v in viols if v["m"] == "Serializable")
-        for li, e in enumerate(events, 1):
-            if e["ev"] != "conc":
-                continue
-            m = scen[e["b"]].get("modelled", 0)
-            if not m:
-                continue
-            k = (m, tuple(min(x, e["sections"]) if isinstance(x, int) else x for x in e["sched"]))
-            if k in pred:
-                compared += 1
-                if pred[k] != (li not in bad_lines):
-                    mismatches.append({"scen": m, "sched": e["sched"], "model_serializable": pred[k], "observed_serializable": li not in bad_lines})
-        log("  section-level model: %d states, %d schedules, %d predicted non-serializable; %d schedules compared with the real code, %d disagree" % (
-            r["states"], len(pred), model_stats["non_serializable_predicted"], compared, len(mismatches)))
-        if mismatches or lemma_broken:
-            log("NONCONFORMANCE: the section-level model and the real code disagree on %d schedules; first: %s" % (len(mismatches), mismatches[:2]))
     known, new = classify(prop, keys)
     conc = [e for e in events if e["ev"] == "conc"]
     if not replay_path and not conc:
